@@ -445,7 +445,7 @@ pub fn soup(rng: &mut Rng, i: u64, opts: &Opts) -> Vec<History> {
                 // a round trip through 8-bit mode (a tail pending before it must not survive)
                 evs.push(hev("utf8", vec![0], vec![], false, "api"));
                 if rng.chance(1, 2) { evs.push(HEv { b: vec![0x62], ..hev("feedb", vec![], vec![], false, "bytes") }); }
-                evs.push(hev("utf8", vec![1], vec![], false, "api"));
+                evs.push(hev("utf8", vec![1], vec![if rng.chance(1, 2) { 0x47 } else { 0x38 }], false, "api"));
             }
             _ => {}
         }
